@@ -30,27 +30,36 @@ def _vec(variables, lookup):
 
 
 def handler(case):
+    """One result per transfer_model call on the same folder; calls after the first go into 'more'."""
+    d = tempfile.mkdtemp(prefix="c22_")
+    try:
+        with open(os.path.join(d, "M.mo"), "w") as f:
+            f.write(case["text"])
+        results = [one_call(case, d) for _ in range(int(case.get("calls", 1)))]
+    finally:
+        shutil.rmtree(d, ignore_errors=True)
+    out = results[0]
+    if len(results) > 1:
+        out["more"] = results[1:]
+    return out
+
+
+def one_call(case, d):
     import logging
     logging.disable(logging.CRITICAL)
     import pymoca
     if not pymoca.__version__.endswith(".dirty"):
         pymoca.__version__ += ".dirty"          # parser.parse then skips its sqlite cache (not C22's subject; 0.15 s/commit)
     from pymoca.backends.casadi.api import transfer_model
-    d = tempfile.mkdtemp(prefix="c22_")
     try:
-        with open(os.path.join(d, "M.mo"), "w") as f:
-            f.write(case["text"])
-        try:
-            m = transfer_model(d, "M", dict(case.get("options") or {}))
-        except ValueError as e:
-            if str(e) == REJECT_MSG:
-                return {"status": "rejected"}
-            return {"status": "error", "exc": "ValueError", "msg": str(e)[:300]}
-        except Exception as e:  # noqa
-            return {"status": "error", "exc": type(e).__name__, "msg": str(e)[:300]}
-    finally:
-        shutil.rmtree(d, ignore_errors=True)
-    out = {"status": "accepted",
+        m = transfer_model(d, "M", dict(case.get("options") or {}))
+    except ValueError as e:
+        if str(e) == REJECT_MSG:
+            return {"status": "rejected"}
+        return {"status": "error", "exc": "ValueError", "msg": str(e)[:300]}
+    except Exception as e:  # noqa
+        return {"status": "error", "exc": type(e).__name__, "msg": str(e)[:300]}
+    out = {"status": "accepted", "cached": type(m).__name__ == "CachedModel",
            "delay_states": list(m.delay_states),
            "n_delay_arguments": len(m.delay_arguments),
            "inputs": [[v.symbol.name(), bool(v.fixed) if not hasattr(v.fixed, "is_constant") else str(v.fixed)]
@@ -70,13 +79,19 @@ def handler(case):
         def look(name, n, pt=pt):
             if name.startswith("der(") and name.endswith(")"):
                 return [pt["der"].get(name[4:-1], 0)] * n
+            shp = pt.get("shape") or {}
             if name in pt["vals"]:
-                v = pt["vals"][name]
-                return (list(v) + [0] * n)[:n]
-            m_ = re.fullmatch(r"(.*?)\[(\d+)(?:,\d+)*\]", name)       # expand_vectors: v[k], _pymoca_delay_j[1,1]
+                v = list(pt["vals"][name])
+                if name in shp:                                       # whole matrix: casadi is column-major
+                    r_, c_ = shp[name]
+                    v = [v[i * c_ + j] for j in range(c_) for i in range(r_)]
+                return (v + [0] * n)[:n]
+            m_ = re.fullmatch(r"(.*?)\[(\d+)(?:,(\d+))?\]", name)     # expand_vectors: v[k], A[i,j], _pymoca_delay_j[1,1]
             if m_ and m_.group(1) in pt["vals"]:
                 v = pt["vals"][m_.group(1)]
                 k = int(m_.group(2)) - 1
+                if m_.group(1) in shp:
+                    k = k * shp[m_.group(1)][1] + int(m_.group(3)) - 1
                 return [v[k] if k < len(v) else 0] * n
             return [0] * n
         args = [float(pt["time"]), _vec(m.states, look), _vec(m.der_states, look), _vec(m.alg_states, look),
